@@ -1067,6 +1067,24 @@ func MakeChan[T any](n ...int) *Chan[T] {
 
 func (c *Chan[T]) isNil() bool { return c == nil }
 
+// Cap replaces cap(ch); Len replaces len(ch) (the number of buffered items; no scheduling point of its own).
+func (c *Chan[T]) Cap() int {
+	if c == nil {
+		return 0
+	}
+	return c.cap
+}
+
+func (c *Chan[T]) Len() int {
+	if c == nil {
+		return 0
+	}
+	if Mode == Pass {
+		return len(c.real)
+	}
+	return len(c.buf)
+}
+
 func (c *Chan[T]) init() {
 	if c.touch() {
 		c.buf, c.bufh, c.bufvc, c.closed = nil, nil, nil, false
